@@ -186,7 +186,16 @@ func drive(d *mon.Driver, replay string) int {
 
 		switch res.Status {
 		case "timeout":
-			d.Inconclusive("watchdog timeout in process " + mc.ID)
+			note := "watchdog timeout in process " + mc.ID
+			if res.Crash != nil {
+				note += "; goroutines at SIGQUIT: " + condenseDump(res.Crash.StderrTail)
+				if dir := os.Getenv("C09_DEBUG_DIR"); dir != "" {
+					_ = os.MkdirAll(dir, 0o755)
+					_ = os.WriteFile(filepath.Join(dir, mc.ID+".stderr.txt"), []byte(res.Crash.StderrTail), 0o644)
+				}
+			}
+			d.Event("watchdog_timeouts", 1)
+			d.Inconclusive(note)
 			return
 		case "lost":
 			d.Inconclusive("worker exited without a result for " + mc.ID)
@@ -261,6 +270,9 @@ func drive(d *mon.Driver, replay string) int {
 
 	byP := map[int][]mon.Case{}
 	for _, c := range cases {
+		if only := os.Getenv("C09_ONLY"); only != "" && !strings.Contains(caseID(c), only) { // development aid
+			continue
+		}
 		byP[c.Procs] = append(byP[c.Procs], mon.NewCase(caseID(c), "process", c))
 	}
 	var ps []int
@@ -310,4 +322,39 @@ func drive(d *mon.Driver, replay string) int {
 		return d.Finish(1, 0)
 	}
 	return d.Finish(d.N(5000, 100000), d.N(100, 2500))
+}
+
+// condenseDump summarises a SIGQUIT goroutine dump: per goroutine its state and its innermost
+// risor / harness frame.
+func condenseDump(stderr string) string {
+	var out []string
+	blocks := strings.Split(stderr, "\n\n")
+	for _, b := range blocks {
+		lines := strings.Split(strings.TrimSpace(b), "\n")
+		if len(lines) == 0 || !strings.HasPrefix(lines[0], "goroutine ") {
+			continue
+		}
+		where := ""
+		for _, l := range lines[1:] {
+			if strings.HasPrefix(l, risorMod) || strings.HasPrefix(l, "verif/") {
+				if i := strings.LastIndex(l, "("); i > 0 {
+					l = l[:i]
+				}
+				where = shortFunc(l)
+				break
+			}
+		}
+		top := ""
+		if len(lines) > 1 {
+			top = lines[1]
+			if i := strings.LastIndex(top, "("); i > 0 {
+				top = top[:i]
+			}
+		}
+		out = append(out, strings.TrimSuffix(lines[0], ":")+" "+top+" in "+orDash(where))
+		if len(out) >= 12 {
+			break
+		}
+	}
+	return mon.Truncate(strings.Join(out, "; "), 1500)
 }
